@@ -54,7 +54,7 @@ def _sync(ctx):
 
     def is_current(expr):
         if isinstance(expr, (ast.SetComp, ast.ListComp)):
-            txt = N.txt(expr)
+            txt = K.rtxt(func, expr)
             return 'glob.glob(' in txt and 'cache_dir' in txt and \
                 not expr.generators[0].ifs
         return False
@@ -196,8 +196,13 @@ def _write_safe(ctx):
                                                       ast.Name):
             defs.setdefault(sub.targets[0].id, []).append(N.txt(sub.value))
     dsrc = defs.get(N.txt(dirkw), []) if dirkw is not None else []
-    ok = bool(dsrc) and dsrc[0] == 'os.path.dirname(%s)' % dest and all(
-        s.startswith('os.path.join(%s' % N.txt(dirkw)) for s in dsrc[1:])
+    # every binding is the destination's directory or a sub-directory of it
+    # (of the variable itself, or of dirname(dest) spelled out)
+    base = 'os.path.dirname(%s)' % dest
+    ok = bool(dsrc) and all(
+        s == base or s.startswith('os.path.join(%s,' % base) or
+        (s.startswith('os.path.join(%s,' % N.txt(dirkw)) and base in dsrc)
+        for s in dsrc)
     ctx.ob('C12.3', func, enter, ok,
            "the temp file is created in the destination's directory: "
            'dir=%s <- %s' % (N.txt(dirkw) if dirkw is not None else None,
@@ -341,10 +346,11 @@ def _invisible(ctx, em):
         cls = index.get_class(modname, clsname)
         func = cls.methods.get(fname)
         ctx.require(func is not None, '%s.%s' % (clsname, fname))
-        pats = [s for s in K.walk_no_nested(func.node)
+        # the pattern may be built in a local first
+        pats = [K.rexpr(func, s) for s in K.walk_no_nested(func.node)
                 if isinstance(s, ast.Call) and
-                K.callee_text(s) == 'glob.glob' and
-                'cache_dir' in N.txt(s)]
+                K.callee_text(s) == 'glob.glob']
+        pats = [p for p in pats if 'cache_dir' in N.txt(p)]
         ok = bool(pats) and all(
             isinstance(p.args[0], ast.Call) and
             isinstance(p.args[0].args[-1], ast.Constant) and
@@ -400,16 +406,27 @@ def _content(ctx, em):
         inner = None
         if isinstance(lam, ast.Lambda):
             inner = lam.body
-        elif isinstance(lam, ast.Name) and lam.id in cache.nested():
-            body = K._fn_body(cache.nested()[lam.id].raw)
+        elif isinstance(lam, ast.Name) and lam.id in cache.nested_view():
+            body = K._fn_body(cache.nested_view()[lam.id].raw)
             if len(body) == 1 and isinstance(body[0], (ast.Expr,
                                                        ast.Return)):
                 inner = body[0].value
         if isinstance(inner, ast.Call) and inner.args:
             dumped = N.txt(inner.args[0])
+        # the dumped object under all its names (a helper's result is
+        # bound to a local of its own before it is handed on)
+        names = set([dumped])
+        for _round in range(3):
+            for sub in K.walk_no_nested(cache.node):
+                if isinstance(sub, ast.Assign) and \
+                        N.txt(sub.targets[0]) in names and \
+                        isinstance(sub.value, ast.Name):
+                    names.add(sub.value.id)
         ddef = [s.value for s in K.walk_no_nested(cache.node)
                 if isinstance(s, ast.Assign) and
-                N.txt(s.targets[0]) == dumped]
+                N.txt(s.targets[0]) in names and
+                not (isinstance(s.value, ast.Name) and
+                     s.value.id in names)]
         okd = len(ddef) == 1 and isinstance(ddef[0], ast.Call) and \
             K.callee_text(ddef[0]) == 'zkutils.get' and \
             len(ddef[0].args) == 2 and \
@@ -420,7 +437,8 @@ def _content(ctx, em):
                construct='dumped object')
         tasks = [n for n in graph.nodes if n.kind == 'stmt' and
                  isinstance(n.ast, ast.Assign) and
-                 N.txt(n.ast.targets[0]) == "%s['task']" % dumped]
+                 N.txt(n.ast.targets[0]) in ["%s['task']" % nm
+                                             for nm in names]]
         ok = bool(tasks) and K.guarded_by(graph, node,
                                           lambda e: e.src in tasks)
         ctx.ob('C12.5', cache, node, ok,
@@ -428,7 +446,7 @@ def _content(ctx, em):
                construct='task set before write')
         upd = [n for n, c in K.nodes_calling(
             graph, lambda c: K.is_meth(c, 'update') and
-            K.recv_text(c) == dumped and c.args and
+            K.recv_text(c) in names and c.args and
             N.txt(c.args[0]) == 'placement_data')]
         ok = bool(upd) and K.guarded_by(
             graph, node, lambda e: e.src in upd or any(
